@@ -35,6 +35,9 @@ def _so():
     return so
 
 
+_EARLIER = []      # the last few arrays the kernels returned, kept alive on purpose
+
+
 def check_pair(A, B, acc, uname):
     so = _so()
     a, b = K.arr(A), K.arr(B)
@@ -55,6 +58,15 @@ def check_pair(A, B, acc, uname):
         msg = K.check_result(res, exp[op])
         if msg:
             acc.violation("kernel:" + op, dict(case, op=op), msg)
+        elif isinstance(res, numpy.ndarray):
+            _EARLIER.append((res, exp[op], dict(case, op=op)))
+    # what earlier calls returned must still be what it was (a kernel that hands out views of a work buffer it re-uses would change it)
+    del _EARLIER[:-6]
+    for eres, eexp, ecase in _EARLIER[:-3]:
+        if eres.tolist() != eexp:
+            acc.violation("kernel:earlier-result-changed", dict(case, earlier=ecase), "after these calls the array an EARLIER %s call returned reads %r instead of %r" % (ecase["op"], eres.tolist()[:12], eexp[:12]))
+            del _EARLIER[:]
+            break
     # wrappers, with None forms
     for la, lname in ((a, "arr"), (None, "none")):
         for rb, rname in ((b, "arr"), (None, "none")):
@@ -218,6 +230,9 @@ def replay(case, site=None):
     elif case.get("u") in ("runs", "blocked") or case.get("layout") == "strided":
         check_kernels_only(case["A"], case["B"], acc, case.get("u"))
     else:
+        if case.get("earlier"):
+            del _EARLIER[:]
+            check_pair(case["earlier"]["A"], case["earlier"]["B"], acc, case["earlier"].get("u"))
         check_pair(case["A"], case["B"], acc, case.get("u"))
     for v in acc.violations:
         print("  %s %s :: %s" % (v["site"], v["case"], v["detail"]))
